@@ -648,6 +648,18 @@ def _main(a, prop, seed, t0):
             continue
         violations.append((v.sig, f['check'], f['case'], v.msg))
 
+    # (c) coverage-guided engine (atheris/libFuzzer driving the same property functions), thorough tier only
+    fuzz_stats = None
+    plan = ATHERIS_PLAN.get(prop)
+    if plan and a.tier == 'thorough' and not only and os.environ.get('VERIF_NO_ATHERIS') != '1':
+        fuzz_stats = run_atheris(prop, plan, seed, nsh)
+        evaluations += fuzz_stats['executions']
+        for k, v in fuzz_stats['known_tally'].items(): known_tally[k] = known_tally.get(k, 0) + v
+        for path in fuzz_stats['violation_replays']:
+            with open(os.path.join(ROOT, path)) as f:
+                rec = json.load(f)
+            violations.append((rec['signature'], rec['check'], rec['case'], rec.get('oracle_message', '')))
+
     vdir = os.path.join(ROOT, 'replays', 'violations')
     seen = set()
     nviol = 0
@@ -694,6 +706,7 @@ def _main(a, prop, seed, t0):
                 'max_residuals': metrics,
                 'exhaustive_counts': exhaustive,
                 'shards': nsh,
+                'atheris': ({k: v for k, v in fuzz_stats.items() if k != 'violation_replays'} if fuzz_stats else None),
             },
             'assumptions': list(getattr(mod, 'ASSUMPTIONS', [])),
             'wall_s': round(wall_s, 2),
@@ -708,6 +721,47 @@ def _main(a, prop, seed, t0):
     print(f'{prop} {a.tier}: evaluations={evaluations} nontrivial={len(nontrivial)} '
           f'violations={nviol} known_tally={known_tally} wall={wall_s:.1f}s')
     return 1 if nviol else 0
+
+
+# property -> (property-function names, libFuzzer runs per function); executed by fuzz_check.py in the thorough tier
+ATHERIS_PLAN = {
+    'C09': (['binop', 'getitem', 'setitem', 'reduce', 'construct', 'observe', 'mutate', 'readonly', 'history'], 40000),
+    'C10': (['key', 'names', 'shared'], 15000),
+    'C18': (['history'], 20000),
+    'C01': (['mix', 'split', 'separate', 'copy_flow', 'scale'], 15000),
+    'C17': (['binary', 'scale', 'purity', 'items'], 15000),
+}
+
+
+def run_atheris(prop, plan, seed, nsh):
+    import subprocess, re
+    names, runs = plan
+    out = {'engine': 'atheris (libFuzzer) feeding Hypothesis fuzz_one_input of the same property functions',
+           'available': True, 'executions': 0, 'per_check': {}, 'known_tally': {}, 'violation_replays': []}
+    procs = []
+    for i, name in enumerate(names):
+        cmd = [sys.executable, os.path.join(ROOT, 'fuzz_check.py'), prop, '--prop', name, '--runs', str(runs),
+               '--seed', str(seed * 1009 + i + 1)]
+        procs.append((name, subprocess.Popen(cmd, stdout=subprocess.PIPE, stderr=subprocess.DEVNULL, text=True, cwd=ROOT)))
+        if len(procs) >= nsh:
+            _collect_fuzz(procs, out); procs = []
+    _collect_fuzz(procs, out)
+    return out
+
+
+def _collect_fuzz(procs, out):
+    import re
+    for name, p in procs:
+        stdout, _ = p.communicate()
+        m = re.search(r'^FUZZ-STATS (.*)$', stdout, re.M)
+        st = json.loads(m.group(1)) if m else {'available': True, 'executions': 0, 'error': 'no stats line'}
+        if not st.get('available', True):
+            out['available'] = False
+        out['executions'] += st.get('executions', 0)
+        out['per_check'][name] = {k: st.get(k) for k in ('executions', 'wall_s', 'violation', 'error') if st.get(k) is not None}
+        for k, v in (st.get('known_tally') or {}).items():
+            out['known_tally'][k] = out['known_tally'].get(k, 0) + v
+        out['violation_replays'] += re.findall(r'^VIOLATION property=\S+ replay=(\S+)$', stdout, re.M)
 
 
 def validate_and_write(ev, prop):
